@@ -19,9 +19,17 @@ import (
 	spb "google.golang.org/genproto/googleapis/rpc/status"
 )
 
+// respHandler is where the responses of one call are delivered.
+type respHandler struct {
+	ch chan *goatorepo.Rpc
+	// gone is closed by the call's owner, before it unregisters, once nobody
+	// reads ch any more: a delivery parked on ch must not keep the mutex
+	gone <-chan struct{}
+}
+
 type RpcMultiplexer struct {
 	rw       types.RpcReadWriter
-	handlers map[uint64]chan *goatorepo.Rpc
+	handlers map[uint64]respHandler
 
 	ctx    context.Context
 	cancel context.CancelFunc
@@ -36,7 +44,7 @@ type RpcMultiplexer struct {
 func NewRpcMultiplexer(rw types.RpcReadWriter) *RpcMultiplexer {
 	rm := &RpcMultiplexer{
 		rw:       rw,
-		handlers: make(map[uint64]chan *goatorepo.Rpc),
+		handlers: make(map[uint64]respHandler),
 		codec:    encoding.GetCodecV2(proto.Name),
 	}
 
@@ -63,8 +71,8 @@ func (rm *RpcMultiplexer) closeError(err error) {
 
 	if err != nil {
 		rm.rErr = err
-		for id, ch := range rm.handlers {
-			close(ch)
+		for id, h := range rm.handlers {
+			close(h.ch)
 			delete(rm.handlers, id)
 		}
 	}
@@ -84,11 +92,15 @@ func (rm *RpcMultiplexer) CallUnaryMethod(
 	streamId := atomic.AddUint64(&rm.streamCounter, 1)
 
 	respChan := make(chan *goatorepo.Rpc, 1)
+	gone := make(chan struct{})
 
-	if err := rm.registerHandler(streamId, respChan); err != nil {
+	if err := rm.registerHandler(streamId, respChan, gone); err != nil {
 		return nil, err
 	}
-	defer rm.unregisterHandler(streamId)
+	defer func() {
+		close(gone)
+		rm.unregisterHandler(streamId)
+	}()
 
 	rpc := goatorepo.Rpc{
 		Id:     streamId,
@@ -147,11 +159,14 @@ func (rm *RpcMultiplexer) NewStreamReadWriter(
 	streamId := atomic.AddUint64(&rm.streamCounter, 1)
 
 	respChan := make(chan *goatorepo.Rpc, 1)
-	if err := rm.registerHandler(streamId, respChan); err != nil {
+	gone := make(chan struct{})
+	if err := rm.registerHandler(streamId, respChan, gone); err != nil {
 		return 0, nil, nil, err
 	}
 
+	var goneOnce sync.Once
 	teardown := func() {
+		goneOnce.Do(func() { close(gone) })
 		rm.unregisterHandler(streamId)
 	}
 
@@ -200,26 +215,31 @@ func (rm *RpcMultiplexer) handleResponse(rpc *goatorepo.Rpc) {
 	rm.mutex.Lock()
 	defer rm.mutex.Unlock()
 
-	ch, ok := rm.handlers[rpc.GetId()]
+	h, ok := rm.handlers[rpc.GetId()]
 	if !ok {
 		// TODO: getting log lines from here after cancelling streams
 		log.Error().Msgf("Mux: unhandled Rpc %d", rpc.GetId())
 		return
 	}
-	ch <- rpc
+	select {
+	case h.ch <- rpc:
+	case <-h.gone:
+		// The call has ended without reading this response. Waiting for it
+		// here would deadlock with unregisterHandler, which needs rm.mutex.
+	}
 }
 
 // registerHandler fails once a read error has been recorded: closeError has
 // already closed every registered channel, so a handler registered after it
 // would wait for a response that can never arrive.
-func (rm *RpcMultiplexer) registerHandler(id uint64, c chan *goatorepo.Rpc) error {
+func (rm *RpcMultiplexer) registerHandler(id uint64, c chan *goatorepo.Rpc, gone <-chan struct{}) error {
 	rm.mutex.Lock()
 	defer rm.mutex.Unlock()
 
 	if rm.rErr != nil {
 		return rm.rErr
 	}
-	rm.handlers[id] = c
+	rm.handlers[id] = respHandler{ch: c, gone: gone}
 	return nil
 }
 
@@ -227,8 +247,8 @@ func (rm *RpcMultiplexer) unregisterHandler(id uint64) {
 	rm.mutex.Lock()
 	defer rm.mutex.Unlock()
 
-	if ch, ok := rm.handlers[id]; ok {
-		close(ch)
+	if h, ok := rm.handlers[id]; ok {
+		close(h.ch)
 	}
 
 	delete(rm.handlers, id)
